@@ -12,7 +12,7 @@
 (*  body.tas   : Seq([addr : Seq(STRING), scope, typ])  (TargetableAs)     *)
 (* A target (top level) is                                                 *)
 (*  [addr : Seq(STRING), local : Seq(STRING), scope, typ, rng : item path, *)
-(*   def : "header" | "name"]                                              *)
+(*   def : "header" | "name" | "value"]                                    *)
 (* typ is the friendly type name or "?" where the statement does not pin   *)
 (* it down; nested targets are constrained by the structural predicates of *)
 (* TraceTargets.                                                           *)
@@ -48,6 +48,13 @@ TypeOfDecl(body, attr) ==
 ValueType(v) == CASE v.k = "str" -> "string" [] v.k = "num" -> "number" [] v.k = "other" -> "bool"
                   [] v.k = "list" -> "tuple" [] v.k = "obj" -> "object" [] v.k = "ref" -> "dynamic" [] OTHER -> "?"
 
+\* a reference constraint with an address schema: the reference WRITTEN as the value declares a target of that address
+\* (its extent is the written reference, it has no definition range and no type)
+RefDeclTargets(s, it, p) ==
+  LET as == IF Has(s.attrs, it.name) THEN s.attrs[it.name] ELSE Nil IN
+  IF as # Nil /\ "cons" \in DOMAIN as /\ as.cons.k = "refdecl" /\ it.val.k = "legref"
+  THEN {T(it.val.addr, <<>>, "prov", "none", p, "value")} ELSE {}
+
 AttrTargets(s, it, p) ==
   LET as == IF Has(s.attrs, it.name) THEN s.attrs[it.name] ELSE Nil IN
   IF as = Nil \/ Addr(as) = Nil THEN {}
@@ -71,7 +78,7 @@ TargetsP(s, body, path) ==
           IF it.k = "attr"
           THEN (IF s.ext.count /\ it.name = "count" THEN {T(<<>>, <<"count", "index">>, "", "number", p, "name")}
                 ELSE IF s.ext.forEach /\ it.name = "for_each" THEN {T(<<>>, <<"each", "key">>, "", "string", p, "name"), T(<<>>, <<"each", "value">>, "", "dynamic", p, "name")}
-                ELSE AttrTargets(s, it, p) \cup AnyAttrTargets(s, it, p))
+                ELSE AttrTargets(s, it, p) \cup AnyAttrTargets(s, it, p) \cup RefDeclTargets(s, it, p))
           ELSE IF ~Has(s.blocks, it.type) THEN {}
           ELSE LET bs == s.blocks[it.type]
                    eff == Effective(bs, it)
